@@ -343,16 +343,22 @@ func runEndMarker(p *Program, r *RuleResult) {
 			if !ok {
 				continue // produced by another scan function, judged there
 			}
-			if c.Value == nil || c.Int64() > thr {
+			if c.Value == nil {
 				continue
 			}
-			nSites++
 			label := p.returnExprText(s.in.Pos())
 			if label == "" {
 				label = fmt.Sprint(c.Int64())
 			}
 			ord[label]++
 			construct := fmt.Sprintf("end-marker-token:%s#%d", label, ord[label])
+			if c.Int64() > thr {
+				// an ordinary token code: one obligation per site all the same, so that the
+				// set of obligations does not depend on the numeric value of a token constant
+				r.add(fnName(fn), construct, Holds, p.instrPos(s.in), fmt.Sprintf("token code %d is not an end marker", c.Int64()))
+				continue
+			}
+			nSites++
 			ok2 := false
 			for f := range view.FactsAt(s.in.Block()) {
 				bo, isB := f.v.(*ssa.BinOp)
